@@ -11,7 +11,10 @@
 // ASSUMED: what mani::ManifestIterator yields for a fragment is its sequence of edits; the FIRST edit of every fragment is
 // the roll-over snapshot of the listing at that moment, so it does not change the listing (C13, not applicable); iterating
 // a HashSet visits exactly its elements; file-system calls may fail arbitrarily; rule X13 (iterator loops as index loops).
-// Not here: the offline verifier's own removals, logs, crash points, reader snapshots other than through the counter.
+//   * the offline verifier: LsmVerifier::possibly_complete_processing (entire) and the recording region of process_one
+//     (further down): it unlinks only the fragment its own manifest records as processed and trash entries whose names
+//     were recorded from what verify_one returned for a verified fragment.
+// Not here: logs of the key-value store, crash points, reader snapshots other than through the counter.
 use vstd::prelude::*;
 verus! {
 global size_of usize == 8;
@@ -294,6 +297,195 @@ impl LsmTree {
 //@ end
 }
 
-//@ min-verified 2
+
+// ---------------------------------------------------------------- the offline verifier's removals (lsmtk/src/verifier.rs)
+// LsmVerifier::possibly_complete_processing is the only place the verifier unlinks anything.  Extracted entire: it unlinks
+// (a) the manifest fragment `entry`, and only when the verifier's own manifest records that very fragment as processed
+// ('M' names the same backup number), and (b) files TRASH_ROOT/<name> for names its own manifest lists -- nothing else.
+// The recording half is the region of process_one that builds the edit: the names it adds are exactly the trash names of the
+// ssts and logs verify_one returned for the fragment it has just verified, each of which must already be in trash.
+// ASSUMED: TRASH_ROOT(root).join(basename(TRASH_SST(root, s))) is TRASH_SST(root, s) (path algebra); Manifest::apply applies
+// the edit; error decoration (`.with_debug_field(..)`) is dropped.
+#[verifier::external_body]
+struct VPath { _p: u8 }
+impl VPath {
+    #[verifier::external_body]
+    fn exists(&self) -> (r: bool) { unimplemented!() }
+}
+// what a path names: a manifest fragment, a file in trash by its recorded name, or something else
+enum PV { Fragment(Option<u64>), Trash(Digest), Other }
+uninterp spec fn pv(p: VPath) -> PV;
+// mani::extract_backup(path): the backup number of a fragment name
+#[verifier::external_body]
+fn extract_backup_str(s: &Str) -> (r: Option<u64>) ensures r == backup_no(s@) { unimplemented!() }
+uninterp spec fn backup_no(name: Digest) -> Option<u64>;
+#[verifier::external_body]
+fn extract_backup_path(p: &VPath) -> (r: Option<u64>) ensures pv(*p) is Fragment ==> r == pv(*p)->Fragment_0 { unimplemented!() }
+fn opt_gt(a: Option<u64>, b: Option<u64>) -> (r: bool)
+    ensures r == (match (a, b) { (Some(x), Some(y)) => x > y, (Some(_), None) => true, _ => false })
+{ match (a, b) { (Some(x), Some(y)) => x > y, (Some(_), None) => true, _ => false } }
+fn opt_eq(a: Option<u64>, b: Option<u64>) -> (r: bool) ensures r == (a == b)
+{ match (a, b) { (Some(x), Some(y)) => x == y, (None, None) => true, _ => false } }
+impl Root {
+    // any other path under the store's root
+    #[verifier::external_body]
+    fn join(&self, name: &Str) -> (r: VPath) ensures pv(r) == PV::Other { unimplemented!() }
+}
+// TRASH_ROOT(&self.root).join(name)
+#[verifier::external_body]
+fn trash_join(root: &Root, name: &Str) -> (r: VPath) ensures pv(r) == PV::Trash(name@) { unimplemented!() }
+impl Edit {
+    #[verifier::external_body]
+    fn default() -> (r: Edit) ensures r@.rm == Seq::<Digest>::empty(), r@.add == Seq::<Digest>::empty(), r.info_m() is None { unimplemented!() }
+    #[verifier::external_body]
+    fn rm(&mut self, s: &Str) -> (r: Result<(), SError>) ensures final(self).info_m() == old(self).info_m(), r is Ok ==> final(self)@.rm == old(self)@.rm.push(s@) && final(self)@.add == old(self)@.add, r is Err ==> final(self)@ == old(self)@ { unimplemented!() }
+    #[verifier::external_body]
+    fn add(&mut self, s: &Str) -> (r: Result<(), SError>) ensures final(self).info_m() == old(self).info_m(), r is Ok ==> final(self)@.add == old(self)@.add.push(s@) && final(self)@.rm == old(self)@.rm, r is Err ==> final(self)@ == old(self)@ { unimplemented!() }
+    // the 'M' info of the edit (the fragment it records as processed)
+    uninterp spec fn info_m(&self) -> Option<Digest>;
+    #[verifier::external_body]
+    fn info(&mut self, c: char, s: &Str) -> (r: Result<(), SError>)
+        ensures final(self)@ == old(self)@, r is Ok && c == 'M' ==> final(self).info_m() == Some(s@), c != 'M' ==> final(self).info_m() == old(self).info_m(),
+    { unimplemented!() }
+}
+// the verifier's own manifest
+#[verifier::external_body]
+struct VMani { _p: u8 }
+impl VMani {
+    uninterp spec fn strs(&self) -> Seq<Digest>;
+    uninterp spec fn info_m(&self) -> Option<Digest>;
+    // `self.mani.info('M')`
+    #[verifier::external_body]
+    fn info(&self, c: char) -> (r: Option<Str>) ensures c == 'M' ==> (r is Some) == (self.info_m() is Some) && (r is Some ==> r->Some_0@ == self.info_m()->Some_0) { unimplemented!() }
+    #[verifier::external_body]
+    fn strs_vec(&self) -> (r: Vec<Str>) ensures r@.len() == self.strs().len(), forall|i: int| 0 <= i < r@.len() ==> (#[trigger] r@[i])@ == self.strs()[i] { unimplemented!() }
+    // Manifest::apply: removals, then additions, then infos (a failed apply leaves the manifest poisoned: nothing is claimed)
+    #[verifier::external_body]
+    fn apply(&mut self, e: Edit) -> (r: Result<(), SError>)
+        ensures r is Ok && e@.rm.len() == 0 ==> final(self).strs() == old(self).strs() + e@.add && (e.info_m() is Some ==> final(self).info_m() == e.info_m()),
+    { unimplemented!() }
+}
+#[verifier::external_body]
+fn corruption_out_of_order() -> (r: SError) { unimplemented!() }
+struct LsmVerifier { root: Root, mani: VMani, unlinked: Ghost<Seq<PV>> }
+impl LsmVerifier {
+    // std::fs::remove_file(path)
+    #[verifier::external_body]
+    fn remove_file(&mut self, p: &VPath) -> (r: Result<(), SError>)
+        ensures final(self).mani == old(self).mani, final(self).unlinked@ == old(self).unlinked@.push(pv(*p)) || final(self).unlinked@ == old(self).unlinked@,
+    { unimplemented!() }
+
+//@ extract lsmtk/src/verifier.rs | impl LsmVerifier :: fn possibly_complete_processing
+//@ ret r
+//@ rewrite X7 `entry: &PathBuf` => `entry: &VPath`
+//@ rewrite X7 `mani::extract_backup(last_entry_processed)` => `extract_backup_str(&last_entry_processed)`
+//@ rewrite X7 `mani::extract_backup(entry)` => `extract_backup_path(entry)`
+//@ rewrite-re? X4 `\blog_num_old > log_num_new\b` => `opt_gt(log_num_old, log_num_new)`
+//@ rewrite-re? X4 `\blog_num_old >= log_num_new\b` => `(opt_gt(log_num_old, log_num_new) || opt_eq(log_num_old, log_num_new))`
+//@ rewrite-re? X4 `\blog_num_old < log_num_new\b` => `opt_gt(log_num_new, log_num_old)`
+//@ rewrite-re? X4 `\blog_num_old <= log_num_new\b` => `(opt_gt(log_num_new, log_num_old) || opt_eq(log_num_old, log_num_new))`
+//@ rewrite-re? X4 `\blog_num_old == log_num_new\b` => `opt_eq(log_num_old, log_num_new)`
+//@ rewrite-re? X4 `\blog_num_old != log_num_new\b` => `!opt_eq(log_num_old, log_num_new)`
+//@ rewrite-re X7 `(?s)return Err\(corruption\("clean up saw log out of order"\).*?\);` => `return Err(corruption_out_of_order());`
+//@ rewrite-re X7 `\.with_debug_field\("path", \w+\)` => ``
+//@ rewrite-re X7 `\bremove_file\(&?(\w+)\)` => `self.remove_file(&\1)`
+//@ rewrite X13 `for path in self.mani.strs() {` => `let names = self.mani.strs_vec(); for nidx in 0..names.len() { let path = &names[nidx];`
+//@ rewrite-re? X7 `TRASH_ROOT\(&self\.root\)\.join\(path\)` => `trash_join(&self.root, path)`
+//@ pre <<
+        pv(*entry) is Fragment,
+//@ >>
+//@ post <<
+        // whatever was unlinked is the processed fragment itself or a trash file the verifier's manifest lists by name
+        forall|k: int| old(self).unlinked@.len() <= k < final(self).unlinked@.len() ==>
+            (#[trigger] final(self).unlinked@[k] == pv(*entry) && old(self).mani.info_m() is Some && backup_no(old(self).mani.info_m()->Some_0) == pv(*entry)->Fragment_0)
+            || (exists|i: int| 0 <= i < old(self).mani.strs().len() && final(self).unlinked@[k] == PV::Trash(old(self).mani.strs()[i])),
+        final(self).unlinked@.len() >= old(self).unlinked@.len(),
+        forall|k: int| 0 <= k < old(self).unlinked@.len() ==> final(self).unlinked@[k] == old(self).unlinked@[k],
+//@ >>
+//@ loop 0 <<
+                invariant self.mani == old(self).mani, names@.len() == old(self).mani.strs().len(),
+                    forall|i: int| 0 <= i < names@.len() ==> (#[trigger] names@[i])@ == old(self).mani.strs()[i],
+                    self.unlinked@.len() >= old(self).unlinked@.len(),
+                    forall|k: int| 0 <= k < old(self).unlinked@.len() ==> self.unlinked@[k] == old(self).unlinked@[k],
+                    /* contract-inv */ forall|k: int| old(self).unlinked@.len() <= k < self.unlinked@.len() ==>
+                        (#[trigger] self.unlinked@[k] == pv(*entry) && old(self).mani.info_m() is Some && backup_no(old(self).mani.info_m()->Some_0) == pv(*entry)->Fragment_0)
+                        || (exists|i: int| 0 <= i < old(self).mani.strs().len() && self.unlinked@[k] == PV::Trash(old(self).mani.strs()[i])),
+//@ >>
+//@ end
+}
+// what the verifier records before it unlinks: TRASH_SST / TRASH_LOG names of what verify_one returned for the fragment
+uninterp spec fn sst_trash_name(s: Setsum) -> Digest;
+uninterp spec fn log_trash_name(n: u64) -> Digest;
+spec fn sst_names(v: Seq<Setsum>) -> Seq<Digest> { Seq::new(v.len(), |i: int| sst_trash_name(v[i])) }
+spec fn log_names(v: Seq<u64>) -> Seq<Digest> { Seq::new(v.len(), |i: int| log_trash_name(v[i])) }
+#[verifier::external_body]
+fn trash_sst_path(root: &Root, s: Setsum) -> (r: VPath) ensures pv(r) == PV::Trash(sst_trash_name(s)) { unimplemented!() }
+// SST_FILE(root, s): a live file, not a trash entry
+#[verifier::external_body]
+fn live_sst_path(root: &Root, s: Setsum) -> (r: VPath) ensures pv(r) == PV::Other { unimplemented!() }
+#[verifier::external_body]
+fn trash_log_path(root: &Root, n: u64) -> (r: VPath) ensures pv(r) == PV::Trash(log_trash_name(n)) { unimplemented!() }
+// basename_string(path): the file name of a trash path is the name the verifier's manifest will list; of a fragment, its name
+#[verifier::external_body]
+fn basename_string(p: &VPath) -> (r: Result<Str, SError>)
+    ensures r is Ok && pv(*p) is Trash ==> r->Ok_0@ == pv(*p)->Trash_0,
+        r is Ok && pv(*p) is Fragment ==> backup_no(r->Ok_0@) == pv(*p)->Fragment_0,
+{ unimplemented!() }
+#[verifier::external_body]
+fn backoff(name: Str) -> (r: SError) { unimplemented!() }
+#[verifier::external_body]
+fn hexdigest_str(s: Setsum) -> (r: Str) { unimplemented!() }
+
+//@ extract lsmtk/src/verifier.rs | impl LsmVerifier :: fn process_one
+//@ region `let mut edit = Edit::default();` ..; `v.mani.apply(edit)?;`
+//@ region-sig <<
+fn process_one_record(v: &mut LsmVerifier, entry: &VPath, output_setsum: Setsum, ssts_to_rm: Vec<Setsum>, logs_to_rm: Vec<u64>) -> (r: Result<(), SError>)
+//@ >>
+//@ region-tail <<
+    Ok(())
+//@ >>
+//@ rewrite-re X18 `\bself\.` => `v.`
+//@ rewrite X13 `for sst in ssts_to_rm.iter() {` => `for sidx in 0..ssts_to_rm.len() { let sst = &ssts_to_rm[sidx];`
+//@ rewrite X13 `for log_num in logs_to_rm.iter() {` => `for lidx in 0..logs_to_rm.len() { let log_num = &logs_to_rm[lidx];`
+//@ rewrite-re? X7 `TRASH_SST\(&v\.root, (\*?\w+)\)` => `trash_sst_path(&v.root, \1)`
+//@ rewrite-re? X7 `SST_FILE\(&v\.root, (\*?\w+)\)` => `live_sst_path(&v.root, \1)`
+//@ rewrite-re X7 `TRASH_LOG\(&v\.root, (\*?\w+)\)` => `trash_log_path(&v.root, \1)`
+//@ rewrite-re X7 `basename_string\(&?(\w+)\)` => `basename_string(&\1)`
+//@ rewrite X7 `&output_setsum.hexdigest()` => `&hexdigest_str(output_setsum)`
+//@ pre <<
+        pv(*entry) is Fragment,
+//@ >>
+//@ post <<
+        // nothing is unlinked while recording; what is recorded are the trash names of what verify_one returned for the
+        // fragment, and that fragment
+        final(v).unlinked == old(v).unlinked,
+        r is Ok ==> final(v).mani.strs() == old(v).mani.strs() + (sst_names(ssts_to_rm@) + log_names(logs_to_rm@))
+            && final(v).mani.info_m() is Some && backup_no(final(v).mani.info_m()->Some_0) == pv(*entry)->Fragment_0,
+//@ >>
+//@ loop 0 <<
+        invariant *v == *old(v), edit.info_m() is None, edit@.rm.len() == 0,
+            /* contract-inv */ edit@.add == sst_names(ssts_to_rm@).subrange(0, sidx as int),
+//@ >>
+//@ loop 1 <<
+        invariant *v == *old(v), edit.info_m() is None, edit@.rm.len() == 0,
+            /* contract-inv */ edit@.add == sst_names(ssts_to_rm@) + log_names(logs_to_rm@).subrange(0, lidx as int),
+//@ >>
+//@ endloop 0 <<
+        proof { let n = sst_names(ssts_to_rm@); assert(n.subrange(0, sidx as int + 1) =~= n.subrange(0, sidx as int).push(n[sidx as int])); }
+//@ >>
+//@ afterloop 0 <<
+    proof { let n = sst_names(ssts_to_rm@); assert(n.subrange(0, n.len() as int) =~= n); assert(n + log_names(logs_to_rm@).subrange(0, 0) =~= n); }
+//@ >>
+//@ endloop 1 <<
+        proof { let n = log_names(logs_to_rm@); assert(n.subrange(0, lidx as int + 1) =~= n.subrange(0, lidx as int).push(n[lidx as int]));
+                assert(sst_names(ssts_to_rm@) + n.subrange(0, lidx as int).push(n[lidx as int]) =~= (sst_names(ssts_to_rm@) + n.subrange(0, lidx as int)).push(n[lidx as int])); }
+//@ >>
+//@ afterloop 1 <<
+    proof { let n = log_names(logs_to_rm@); assert(n.subrange(0, n.len() as int) =~= n); }
+//@ >>
+//@ end
+
+//@ min-verified 4
+
 } // verus!
 fn main() {}
